@@ -5,7 +5,7 @@ import "verif/internal/eng"
 func init() {
 	register(&Property{
 		ID: "C12",
-		Explanation: "Decides the shape of the lock protocol, which must hold for every interleaving: (lock-protocol) in newLock the lock file is created only behind the success edge of a first checkForOtherLocks; success is returned only behind the success edges of createLock and of a second checkForOtherLocks executed after a settle delay — for exclusive and non-exclusive locks alike — and when that second check fails every way out passes unlock (the created file is removed); (conflict-rule) the per-lock callback of checkForOtherLocks returns nil only on the false edges of both the own and the other lock's Exclusive flag and only if the lock file could be read, and checkForOtherLocks returns nil only after a complete error-free scan; (stale-only) RemoveStaleLocks removes a lock only on the true edge of lock.stale(), the one it examined, and stale() is true only by age beyond staleLockTimeout or a dead process on the same host; (lock-file-writers) lock files are created only by createLock and removed only by unlock, adoptReplacementLock, the clean-up in refreshStaleLock and the unlock command. Not decided: interleavings of two or three processes, clock skew and listing delays of the backend (these need model checking).",
+		Explanation: "Decides the shape of the lock protocol, which must hold for every interleaving: (lock-protocol) in newLock the lock file is created only behind the success edge of a first checkForOtherLocks; success is returned only behind the success edges of createLock and of a second checkForOtherLocks executed after a settle delay — for exclusive and non-exclusive locks alike — and when that second check fails every way out passes unlock (the created file is removed); (conflict-rule) the per-lock callback of checkForOtherLocks returns nil only on the false edges of both the own and the other lock's Exclusive flag and only if the lock file could be read, and checkForOtherLocks returns nil only after a complete error-free scan; (stale-only) RemoveStaleLocks removes a lock only on the true edge of lock.stale(), the one it examined, and stale() is true only by age beyond staleLockTimeout or a dead process on the same host; (process-probe) where processExists probes the owner with a signal, it reports the process gone only on the not-a-permission-error edge of a test of the signal's error (kill() of a live process of another user fails with EPERM) — the genuine defect found here (`unlock` run by another user removed the lock of a running restic process) is fixed; (lock-file-writers) lock files are created only by createLock and removed only by unlock, adoptReplacementLock, the clean-up in refreshStaleLock and the unlock command. Not decided: interleavings of two or three processes, clock skew and listing delays of the backend (these need model checking).",
 		Assumptions: commonAssumptions,
 		Technique:   "static analysis: CFG edge cuts on the lock-acquisition protocol + call-site enumeration of lock-file writers (go/ssa)",
 		Run: func(c *eng.Ctx) {
@@ -13,8 +13,12 @@ func init() {
 			ruleConflictRule(c)
 			ruleStaleOnly(c)
 			ruleLockFileWriters(c)
+			ruleProcessProbe(c)
 		},
+		AllConfigs: true,
 		Controls: []Control{
+			{Name: "eperm-counts-as-process-gone", File: "internal/repository/lock_file_unix.go",
+				Old: "	if errors.Is(err, syscall.EPERM) {", New: "	if errors.Is(err, syscall.EPERM) && l.PID < 0 {", Rule: "process-probe"},
 			{Name: "create-before-first-check", File: "internal/repository/lock_file.go",
 				Old: "	if err = lock.checkForOtherLocks(ctx); err != nil {\n		return nil, err\n	}\n\n	lockID, err := lock.createLock(ctx)", New: "	lockID, err := lock.createLock(ctx)", Rule: "lock-protocol"},
 			{Name: "conflict-leaves-lock-file", File: "internal/repository/lock_file.go",
@@ -27,15 +31,18 @@ func init() {
 	})
 	register(&Property{
 		ID: "C13",
-		Explanation: "Decides: (create-then-remove) in lockHandle.refresh and refreshStaleLock the old lock file is removed (adoptReplacementLock) only behind the success edge of createReplacementLock, the lock adopted is the one just created, and success is returned only through adoptReplacementLock; refreshStaleLock creates a replacement only if the own lock file still exists and adopts it only if a second existence check — after creating it — succeeded and still found the file; adoptReplacementLock switches l.lockID first and removes the id read before the switch, so there is no moment without a lock file; (cancel-before-unlock) the deferred clean-up of refreshLocks cancels the holder's context before it removes the lock file, both refresh goroutines register their clean-up before any exit, refreshLocks refreshes only inside the refreshability window, and a failed stale refresh calls cancel() (true is returned only on success); (lock-timing) with the initialisers evaluated, 0 < refreshInterval < refreshabilityTimeout < staleLockTimeout and refreshabilityTimeout + refreshInterval <= staleLockTimeout, and staleLockTimeout is reassigned only by a testing hook. Not decided: real timing (scheduler stalls, suspend/resume).",
+		Explanation: "Decides: (create-then-remove) in lockHandle.refresh and refreshStaleLock the old lock file is removed (adoptReplacementLock) only behind the success edge of createReplacementLock, the lock adopted is the one just created, and success is returned only through adoptReplacementLock; refreshStaleLock creates a replacement only if the own lock file still exists and adopts it only if a second existence check — after creating it — succeeded and still found the file; adoptReplacementLock switches l.lockID first and removes the id read before the switch, so there is no moment without a lock file; (cancel-before-unlock) the deferred clean-up of refreshLocks cancels the holder's context before it removes the lock file, both refresh goroutines register their clean-up before any exit, refreshLocks refreshes only inside the refreshability window, and a failed stale refresh calls cancel() (true is returned only on success); (lock-timing) with the initialisers evaluated, 0 < refreshInterval < refreshabilityTimeout < staleLockTimeout and refreshabilityTimeout + refreshInterval <= staleLockTimeout, and staleLockTimeout is reassigned only by a testing hook; (refresh-rendezvous) refreshLocks and monitorLockRefresh, started together with channels made for this pair, cannot block each other for ever: for every pair of blocking channel operations (one per goroutine) whose only other way out is the cancellation of the lock context, some shared channel is sent on by one and received from by the other — the genuine defect found here (a regular refresh finishing after the monitor had requested a forced refresh left both blocked in their sends, so the lock was neither refreshed nor monitored and the context never cancelled) is fixed. Not decided: the request/result hand-over on the per-request result channel; real timing (scheduler stalls, suspend/resume).",
 		Assumptions: commonAssumptions,
 		Technique:   "static analysis: CFG edge cuts + value origin of the removed lock id + evaluation of timing constants (go/ssa, go/constant)",
 		Run: func(c *eng.Ctx) {
 			ruleCreateThenRemove(c)
 			ruleCancelBeforeUnlock(c)
 			ruleLockTiming(c)
+			ruleRendezvousNoCycle(c)
 		},
 		Controls: []Control{
+			{Name: "monitor-does-not-drain-notifications-while-requesting", File: "internal/repository/lock.go",
+				Old: "			case <-refreshed:\n				// ignore delayed refresh notifications. The refresh goroutine cannot\n				// receive the request while it waits to deliver its notification.\n", New: "", Rule: "refresh-rendezvous"},
 			{Name: "remove-old-lock-before-creating-new", File: "internal/repository/lock_file.go",
 				Old: "	id, err := l.createReplacementLock(ctx)\n	if err != nil {\n		return err\n	}\n\n	ctx, cancel := delayedCancelContext(ctx, unlockCancelDelay)\n	defer cancel()\n	return l.adoptReplacementLock(ctx, id)",
 				New: "	id, err := l.createReplacementLock(ctx)\n	if err != nil {\n		debug.Log(\"create failed: %v\", err)\n	}\n\n	ctx, cancel := delayedCancelContext(ctx, unlockCancelDelay)\n	defer cancel()\n	return l.adoptReplacementLock(ctx, id)", Rule: "create-then-remove"},
